@@ -126,3 +126,42 @@ Fixpoint list_eqb {A} (eqb : A -> A -> bool) (a b : list A) : bool :=
   | x :: a', y :: b' => eqb x y && list_eqb eqb a' b'
   | _, _ => false
   end.
+
+(* ---- further xarray primitives used by the face-connection padding ---- *)
+Section Tensor2.
+  Context {A : Type} (dflt : A).
+
+  (* isel({d: slice(start, start+len)}) with 0 <= start, start+len <= size *)
+  Definition isel_range (d : string) (start len : nat) (t : tensor A) : tensor A :=
+    {| dims := dreplace d (d, len) (dims t);
+       get := fun e => get t (upd e d (start + e d)) |}.
+
+  (* isel({d: slice(None, None, -1)}) *)
+  Definition flip (d : string) (t : tensor A) : tensor A :=
+    {| dims := dims t; get := fun e => get t (upd e d (size d t - 1 - e d)) |}.
+
+  (* exchange the names of two dimensions (both present), or rename a to b (b absent) *)
+  Definition swap_names (a b : string) (t : tensor A) : tensor A :=
+    {| dims := map (fun dn => if String.eqb (fst dn) a then (b, snd dn)
+                              else if String.eqb (fst dn) b then (a, snd dn) else dn) (dims t);
+       get := fun e => get t (fun d => if String.eqb d a then e b
+                                        else if String.eqb d b then e a else e d) |}.
+
+  (* xr.concat([t1, t2], dim=d) where both carry d *)
+  Definition concat (d : string) (t1 t2 : tensor A) : tensor A :=
+    {| dims := dreplace d (d, size d t1 + size d t2) (dims t1);
+       get := fun e => if e d <? size d t1 then get t1 e else get t2 (upd e d (e d - size d t1)) |}.
+
+  (* the same two operations with the lengths involved made explicit (in the face
+     padding every slice length is known: the common width W) *)
+  Definition flip_n (d : string) (n : nat) (t : tensor A) : tensor A :=
+    {| dims := dims t; get := fun e => get t (upd e d (n - 1 - e d)) |}.
+  Definition concat_at (d : string) (n1 n2 : nat) (t1 t2 : tensor A) : tensor A :=
+    {| dims := dreplace d (d, n1 + n2) (dims t1);
+       get := fun e => if e d <? n1 then get t1 e else get t2 (upd e d (e d - n1)) |}.
+
+  (* xr.concat(faces, dim=facedim) of arrays lacking facedim: new leading dimension *)
+  Definition stack (d : string) (ts : list (tensor A)) : tensor A :=
+    {| dims := (d, List.length ts) :: match ts with t :: _ => dims t | [] => [] end;
+       get := fun e => match nth_error ts (e d) with Some t => get t e | None => dflt end |}.
+End Tensor2.
